@@ -78,9 +78,47 @@ def dump_thy(thy):
     res['svar_keys'] = sorted(str(k) for k in d.get('theorems_svar', {}))
     res['other_keys'] = sorted(str(k) for k in d if k not in (
         'type_sig', 'term_sig', 'theorems', 'theorems_svar', 'attributes', 'overload'))
-    res['digest'] = _h(json.dumps([res[k] for k in ('types', 'consts', 'thms', 'attrs', 'overload', 'other_keys')],
-                                  sort_keys=True))
+    # what the accessors hand out (the theorem a proof step actually gets, the signature type inference gets):
+    # a cache between the tables above and their readers must not make these depend on the history either
+    api_t, api_c = {}, {}
+    names = sorted(d.get('theorems', {}))
+    step = max(1, len(names) // 400)
+    for k in names[::step]:
+        try:
+            th = thy.get_theorem(k, svar=True)
+            api_t[str(k)] = _h((tuple(S.tm_shadow(h, None, tmemo) for h in th.hyps), S.tm_shadow(th.prop, None, tmemo)))
+        except Exception as e:
+            api_t[str(k)] = 'raises:' + type(e).__name__
+    cn = sorted(d.get('term_sig', {}))
+    for k in cn[::max(1, len(cn) // 400)]:
+        try:
+            api_c[str(k)] = _h((S.ty_shadow(thy.get_term_sig(k)), S.ty_shadow(thy.get_term_sig(k, stvar=True))))
+        except Exception as e:
+            api_c[str(k)] = 'raises:' + type(e).__name__
+    res['api_thms'], res['api_consts'] = api_t, api_c
+    res['digest'] = _h(json.dumps([res[k] for k in ('types', 'consts', 'thms', 'attrs', 'overload', 'other_keys',
+                                                    'api_thms', 'api_consts')], sort_keys=True))
     return res
+
+
+def touch(thy):
+    """what any user of a freshly loaded theory does: look theorems and constants up (fills the accessor caches)"""
+    if thy is None:
+        return
+    d = thy.data
+    names = sorted(d.get('theorems', {}))
+    for k in names[::max(1, len(names) // 200)]:
+        try:
+            thy.get_theorem(k, svar=True)
+        except Exception:
+            pass
+    cn = sorted(d.get('term_sig', {}))
+    for k in cn[::max(1, len(cn) // 200)]:
+        try:
+            thy.get_term_sig(k)
+            thy.get_term_sig(k, stvar=True)
+        except Exception:
+            pass
 
 
 def _cur_thy():
@@ -147,6 +185,8 @@ def do_step(spec, st):
                     basic.load_theory(st['name'], **kw)
                     if st.get('dump'):
                         rec['dump'] = dump_thy(theory.thy)
+                    elif st.get('touch', True):
+                        touch(theory.thy)
                 rec['outcome'] = 'ok'
             finally:
                 if orig is not None:
